@@ -37,10 +37,12 @@ Probs == { [s |-> s, c |-> c, x0 |-> x0, t |-> t] :
              t \in {<<1, 1000>>, <<1, 1000000>>, <<0, 1>>} }
 
 Init == S!Init /\ prob \in Probs
-Next == \/ S!Begin(prob.x0, prob.t, 5) /\ UNCHANGED prob
-        \/ S!Pass(G(x), LAMBDA y : G(y)) /\ UNCHANGED prob
-        \/ S!GiveUp /\ UNCHANGED prob
-        \/ S!Done /\ UNCHANGED prob
+\* (named disjuncts: TLC then reports how often each was taken - the vacuity guard of the check reads that)
+Begin == S!Begin(prob.x0, prob.t, 5) /\ UNCHANGED prob
+Pass == S!Pass(G(x), LAMBDA y : G(y)) /\ UNCHANGED prob
+GiveUp == S!GiveUp /\ UNCHANGED prob
+Done == S!Done /\ UNCHANGED prob
+Next == Begin \/ Pass \/ GiveUp \/ Done
 Spec == Init /\ [][Next]_vars /\ WF_vars(Next)
 
 ReturnsTheFixedPointWithinTolerance == pc = "ok" => QLe(QAbs(QSub(result, Fixed)), prob.t) \/ QLe(QAbs(QSub(G(result), result)), prob.t)
